@@ -1,3 +1,32 @@
 // Included into daemon/src/bfd.rs as `mod verif_harness` (guard: cfg osrg_rustybgp_verif).
+// Extra check X-bfd: the 16 cases of spec/Bfd/Bfd.tla on the real next_state.
+//   VERIF_IN: "<current> <remote>" per line; VERIF_OUT: {"next": "..."} per line
 #[allow(unused_imports)]
 use super::*;
+use std::io::{BufRead, Write as _};
+
+fn st(s: &str) -> State {
+    match s {
+        "AdminDown" => State::AdminDown,
+        "Down" => State::Down,
+        "Init" => State::Init,
+        "Up" => State::Up,
+        x => panic!("harness: state {x}"),
+    }
+}
+
+#[test]
+fn bfd_replay() {
+    let inp = std::env::var("VERIF_IN").expect("VERIF_IN");
+    let outp = std::env::var("VERIF_OUT").expect("VERIF_OUT");
+    let mut out = std::io::BufWriter::new(std::fs::File::create(outp).unwrap());
+    for line in std::io::BufReader::new(std::fs::File::open(inp).unwrap()).lines() {
+        let line = line.unwrap();
+        let t: Vec<&str> = line.split_whitespace().collect();
+        if t.len() < 2 {
+            continue;
+        }
+        let n = next_state(st(t[0]), st(t[1]));
+        writeln!(out, "{{\"next\":\"{:?}\",\"established\":{}}}", n, is_established(n)).unwrap();
+    }
+}
